@@ -239,7 +239,12 @@ def _run_case(ctx, case) -> F.Outcome:
         for k, ev in enumerate(hist):
             if k and advance:
                 day = day + dt.timedelta(days=1)
-            r = Z.db_create(zd, day) if ev == "c" else Z.db_reindex(zd, day)
+            if ev == "p":
+                # reindex of ONE explicit page (the first one); the other pages stay as they are
+                first_page = sorted(files)[0]
+                r = Z.db_reindex(zd, day, [str(zd / first_page)])
+            else:
+                r = Z.db_create(zd, day) if ev == "c" else Z.db_reindex(zd, day)
             out.transitions += 1
             if not Z.cli_ok(r):
                 out.ok = False
@@ -247,6 +252,10 @@ def _run_case(ctx, case) -> F.Outcome:
                 out.detail = {"files": files, "history": hist, "step": k, "status": r.status, "exit": r.value,
                               "stderr": r.err[-1500:]}
                 break
+            if ev == "p":
+                # judged at the next whole-directory run
+                states.append(D.state_digest(zd, day))
+                continue
             problem = _judge_state(zd, day, files, prev, k, had_next_ids=bool(preids))
             states.append(D.state_digest(zd, day))
             if problem:
@@ -300,6 +309,12 @@ def _cases(ctx):
                 for h in ("cr", "ccr"):
                     for adv in (False, True):
                         cases.append([["pair", layout, i, j], h, adv, (i * 12 + j + 1) if (i + j) % 2 == 0 else 0])
+    # the very first command names one page only; the whole-directory runs that follow must
+    # still bring every page in
+    for layout in ("two_pages", "subdir", "same_name_pages"):
+        for i, j in ((0, 1), (1, 0), (3, 8), (8, 3)):
+            for h in ("pr", "prr", "pc"):
+                cases.append([["pair", layout, i, j], h, False, 0])
     # a directory WITHOUT next_ids.json (index rebuilt from the files alone) in which one note
     # already carries the ZID a fresh allocator starts with for the date of a ZID-less note
     wi = next(k for k, x in enumerate(REDUCED) if "240203#00" in x[0])
